@@ -197,6 +197,10 @@ func (w *World) spawnObserver() {
 					if c, ok := sm.(*Cmd); ok {
 						e.ID = c.ID
 						e.Info = "Sched(Cmd)"
+					} else if v := reflect.ValueOf(sm); v.Kind() == reflect.Struct {
+						if f := v.FieldByName("ID"); f.IsValid() && f.CanInt() {
+							e.ID = int(f.Int())
+						}
 					}
 				}
 			}
